@@ -103,6 +103,8 @@ def op_toks(o):
         return [26, o['fk'], o['fa'], o['fb'], o['off'], o['lim']]
     if c == 50:
         return [50, o['j']] + op_toks(o['inner'])
+    if c == 60:
+        return [60, o.get('mode', 1), o.get('coll', 1), len(o['patches'])] + [x for p in o['patches'] for x in p]
     raise ValueError(c)
 
 
